@@ -1,7 +1,7 @@
 \* EXPECTED VIOLATION Converges: no retry
 CONSTANTS HA = 2 HB = 0 ForkAt = 0 Start = 0 MaxIter = 0 WithCancel = FALSE
   Peers = {"honest", "corrupt"}
-  Verify = TRUE Retry = FALSE CheckedStore = TRUE CtxAwareSends = TRUE
+  Verify = TRUE Retry = FALSE CheckedStore = TRUE CtxAwareSends = TRUE FieldsChecked = TRUE
   ClassOf <- MCIdentity EmptyA <- MCEmptyMix EmptyB <- MCNoEmpty
 SPECIFICATION LiveSpec
 VIEW view
